@@ -349,6 +349,9 @@ def _variants():
         V("same-length-fast-path", replace_stmt(PE, "Perm.occurrences_in", "if n > len(pattern): ...", "if n >= len(pattern):\n    if self == pattern:\n        yield tuple(range(n))\n    return"), "fire-or-undecided", "C01-O1"),
         V("too-long-nonstrict", replace_expr(PE, "Perm.occurrences_in", "n > len(pattern)", "n >= len(pattern)"), "fire", "C01-O1"),
         V("search-nonstrict-recursion", replace_expr(PE, "Perm.occurrences_in", "occurrences(i + 1, k + 1)", "occurrences(i, k + 1)"), "fire", "C01-O1"),
+        V("contains-truthiness-any", replace_expr(PE, "Perm._contains", "any((True for _ in patt.occurrences_in(self)))", "any(patt.occurrences_in(self))"), "fire", "C01-T1"),
+        V("contains-truthiness-next", replace_expr(PE, "Perm._contains", "any((True for _ in patt.occurrences_in(self)))", "bool(next(patt.occurrences_in(self), None))"), "fire", "C01-T1"),
+        V("contains-sentinel-next", replace_expr(PE, "Perm._contains", "any((True for _ in patt.occurrences_in(self)))", "next(patt.occurrences_in(self), None) is not None"), "nofire"),
         V("search-skips-position", replace_stmt(PE, "Perm.occurrences_in", "i, elements_remaining = (i + 1, elements_remaining - 1)", "i, elements_remaining = (i + 2, elements_remaining - 2)"), "fire", "C01-O1"),
         V("search-starts-at-1", replace_expr(PE, "Perm.occurrences_in", "occurrences(0, 0)", "occurrences(1, 0)"), "fire", "C01-O1"),
         V("empty-pattern-twice", insert_stmt(PE, "Perm.occurrences_in", "occurrence_indices = [0] * n", "if n == 0:\n    yield ()", "after"), "fire-or-undecided", "C01-O1"),
@@ -706,3 +709,37 @@ def run(ctx: Ctx) -> None:  # noqa: F811
 
 
 FLOORS["C01-O2"] = 1
+
+
+# ---------------------------------------------------------------------------- T1: an occurrence exists  !=  an occurrence is truthy
+
+
+def rule_t1(ctx: Ctx) -> None:
+    """The one occurrence of the empty pattern is the empty tuple, which is falsy: containment / avoidance must ask whether the
+    listing yields anything, never whether what it yields is truthy."""
+    from ..core import truthiness_of_elements
+
+    n = 0
+    for mod_name in ("permuta.patterns.perm", "permuta.patterns.patt", "permuta.patterns.meshpatt", "permuta.patterns.bivincularpatt"):
+        mod = ctx.repo.modules.get(mod_name)
+        if mod is None:
+            continue
+        for fi in ctx.repo.all_funcs():
+            if fi.module is not mod:
+                continue
+            hits = truthiness_of_elements(fi, {"occurrences_in", "occurrences_of", "_occurrences_in_perm", "_occurrences_in_mesh"})
+            for node, what in hits:
+                ctx.violation("C01-T1", fi, node, f"{what}: the occurrence of the empty pattern is the empty tuple (falsy), so an existing occurrence is taken for none", robust=True)
+            n += 1
+    ctx.ok("C01-T1", "permuta.patterns", f"no containment test in {n} functions uses the truth value of an occurrence for its existence")
+
+
+_OLD_RUN_T1 = run
+
+
+def run(ctx: Ctx) -> None:  # noqa: F811
+    _OLD_RUN_T1(ctx)
+    ctx.run(rule_t1, ctx)
+
+
+FLOORS["C01-T1"] = 1
